@@ -1725,10 +1725,22 @@ class EndStmtBase(StmtBase):
         line = string[3:].lstrip()
         start = line[: len(stmt_type)].upper()
         if start:
+            type_len = len(stmt_type)
+            if " " in stmt_type:
+                # A multi-word type (e.g. 'BLOCK DATA') may be written with any
+                # number of blanks (including none) between the words.
+                found = re.match(
+                    r"\s*".join(re.escape(word) for word in stmt_type.split()),
+                    line,
+                    re.IGNORECASE,
+                )
+                if found:
+                    type_len = found.end()
+                    start = stmt_type
             if start.replace(" ", "") != stmt_type.replace(" ", ""):
                 # Not the correct type of 'END ...' statement.
                 return None
-            line = line[len(stmt_type) :].lstrip()
+            line = line[type_len:].lstrip()
         else:
             if require_stmt_type:
                 # No type was found but one is required.
